@@ -59,6 +59,14 @@ func genAmoCase(r *Rng, tier string) AmoCase {
 				c.Constrs = append(c.Constrs, k)
 			}
 		}
+		if r.Bool() { // weighted 3-literal constraints plus a unit falsifying one of their literals
+			for i := 0; i < r.Range(1, 2); i++ {
+				ls := randClauseDistinct(r, n, 3)
+				ws := []int{r.Range(1, 3), r.Range(1, 3), r.Range(1, 3)}
+				c.Constrs = append(c.Constrs, Constr{Kind: "gteq", Lits: ls, Weights: ws, N: r.Range(1, 3)})
+				c.Constrs = append(c.Constrs, Constr{Kind: "clause", Lits: []int{-ls[r.Intn(3)]}})
+			}
+		}
 	}
 	return c
 }
@@ -110,6 +118,13 @@ func runAmoCase(o *Oracle, d json.RawMessage, oc *Outcome) {
 	for _, cl := range pb.Clauses {
 		if cl.Cardinality() > 1 {
 			cardBefore++
+		}
+	}
+	// hypothesis of GS.Amo.detect_equiv (BinClausal): after parse-time simplification every
+	// 2-literal constraint is a clause, i.e. each of its literals alone satisfies it
+	for _, cl := range pb.Clauses {
+		if cl.Len() == 2 && (cl.Weight(0) < cl.Cardinality() || cl.Weight(1) < cl.Cardinality()) {
+			oc.Fail("corr", "amo-hypothesis", entry, "a 2-literal constraint that is not a clause reaches DetectAtMostOne: %s", cl.PBString())
 		}
 	}
 	// exact differential with the Lean mirror GS.Amo.detect (propositional / cardinality
